@@ -142,7 +142,7 @@ ROWS = [
     (r"^mach::function::Function::tab/assert:RemainderByZero\(usize\)#1$", "guarded",
      "divisor is -tab for tab < 0, i.e. >= 1", G(" Lt const:0)")),
     (r"^mach::function::Function::tab/assert:Overflow\(Sub,usize\)#2$", "guarded",
-     "tab - print_col under `tab > print_col`", G(" Gt arg:print_col)")),
+     "tab - print_col under `tab > print_col`", G(" Gt arg:1)")),
     # ---- linker / listing -----------------------------------------------------------------
     (r"^mach::link::Link::append/assert:Overflow\(Add,(usize|isize)\)#\d$", "bounded",
      "code/data addresses are bounded by the 64K pools (Stack::overflow_check) and local symbol "
@@ -193,7 +193,7 @@ ROWS = [
      "65535 - 32", None),
     (r"^mach::stack::Stack<T>::pop_n/assert:Overflow\(Sub,usize\)#1$", "guarded",
      "vec.len() - len after `len > vec.len()` returned the underflow error",
-     G("arg:len Gt ", False)),
+     G("arg:2 Gt ", False)),
     (r"^mach::var::Var::(def|fetch|store)/assert:(Overflow\(Sub,usize\)|BoundsCheck)#\d$",
      "reasoned", LEXINV + "; DEFtype operands are single letters with from <= to (parser)", None),
 ]
